@@ -15,6 +15,20 @@ case = {"rows","cols","ph","pw","reset_via": "charge"|"detector",
 result per case = {"trace": [{"o": "unit"|"raise"|"corrupt"|"arr", "m": [[float]], "f": [[id,n,v,h],..]}, ...],
                    "crashed": bool}
 All numbers are Python floats with exact (dyadic) values; json round-trips them exactly.
+
+Heap cases (case["heap"] is true; object identity, Model/ChargeHeap.v): the caller keeps the array / DataFrame OBJECTS
+it passes and the array objects it receives, and mutates them between container operations:
+  {"op":"new","a":[[..]],"dt":"f8"|"f4"|"f2","order":"C"|"F"}     the caller allocates an array (argument k = k-th `new`)
+  {"op":"write","h":["arg",k]|["res",j],"a":[[..]]}                 the caller overwrites an array it holds (j-th read result)
+  {"op":"add","h":["arg",k]|["res",j],"via":"direct"|"view"|"ro"}   charge.add_charge_array(<that object / a view / a read-only view>)
+  {"op":"newdf","cs":[[n,v,h],..]}                                  the caller builds a DataFrame (Charge.create_charges)
+  {"op":"writedf","k":k,"cs":[[n,v,h],..]}                          the caller modifies its k-th DataFrame IN PLACE (drops trailing
+                                                                    rows if shorter, then assigns the three columns)
+  {"op":"adddf","k":k}                                              charge.add_charge_dataframe(<that object>)
+  {"op":"cl","cs":[..]}                                             add_charge; the arrays passed are scribbled over afterwards
+  reads / frame / removals / reset as above
+each trace record additionally carries "args" (content of every caller array), "xr" (content of every array returned by
+to_xarray) and "dfs" (the (number, position_ver, position_hor) rows of every caller DataFrame) AFTER the op.
 """
 import json
 import os
@@ -31,9 +45,141 @@ def _frame(ch):
     return [[i, a, b, c] for i, a, b, c in zip(idx, n, v, h)]
 
 
+def _mat(a):
+    return [[float(x) for x in row] for row in a]
+
+
+def _mk_df(cs):
+    import numpy as np
+    from pyxel.data_structure import Charge
+
+    n = len(cs)
+    z = np.zeros(n)
+    return Charge.create_charges(
+        particle_type="e",
+        particles_per_cluster=np.array([c[0] for c in cs], dtype=float),
+        init_energy=z.copy(),
+        init_ver_position=np.array([c[1] for c in cs], dtype=float),
+        init_hor_position=np.array([c[2] for c in cs], dtype=float),
+        init_z_position=z.copy(), init_ver_velocity=z.copy(), init_hor_velocity=z.copy(), init_z_velocity=z.copy(),
+    )
+
+
+def run_hcase(case):
+    """Object identity: the caller keeps and mutates what it passes to / receives from the container."""
+    import numpy as np
+    from harness.pyx import make_detector
+
+    det = make_detector("ccd", rows=case["rows"], cols=case["cols"], pixel_vert_size=case["ph"],
+                        pixel_horz_size=case["pw"])
+    ch = det.charge
+    args, res, dfs, keep = [], [], [], []      # keep: objects that own the memory of a result (the DataArray)
+    trace = []
+    for o in case["ops"]:
+        k = o["op"]
+        rec = {"o": "unit"}
+        try:
+            if k == "new":
+                dt = {"f8": np.float64, "f4": np.float32, "f2": np.float16}[o.get("dt", "f8")]
+                args.append(np.array(o["a"], dtype=dt, order=o.get("order", "C")))
+            elif k == "write":
+                kind, i = o["h"]
+                pool = args if kind == "arg" else [x[1] for x in res]
+                if i < len(pool):                      # a handle to nothing is no operation (as in the model)
+                    tgt = pool[i]
+                    tgt[...] = np.array(o["a"], dtype=tgt.dtype)
+            elif k == "add":
+                kind, i = o["h"]
+                pool = args if kind == "arg" else [x[1] for x in res]
+                if i < len(pool):
+                    obj = pool[i]
+                    via = o.get("via", "direct")
+                    if via == "view":
+                        obj = obj.view()
+                    elif via == "ro":
+                        obj = obj.view()
+                        obj.flags.writeable = False
+                    ch.add_charge_array(obj)
+            elif k == "newdf":
+                dfs.append(_mk_df(o["cs"]))
+            elif k == "writedf" and o["k"] < len(dfs):
+                df, cs = dfs[o["k"]], o["cs"]
+                if len(cs) < len(df):
+                    df.drop(index=df.index[len(cs):], inplace=True)
+                df["number"] = np.array([c[0] for c in cs], dtype=float)
+                df["position_ver"] = np.array([c[1] for c in cs], dtype=float)
+                df["position_hor"] = np.array([c[2] for c in cs], dtype=float)
+            elif k == "adddf":
+                if o["k"] < len(dfs):
+                    ch.add_charge_dataframe(dfs[o["k"]])
+            elif k == "writedf":
+                pass
+            elif k == "cl":
+                cs = o["cs"]
+                n = len(cs)
+                arrs = dict(
+                    particles_per_cluster=np.array([c[0] for c in cs], dtype=float), init_energy=np.zeros(n),
+                    init_ver_position=np.array([c[1] for c in cs], dtype=float),
+                    init_hor_position=np.array([c[2] for c in cs], dtype=float), init_z_position=np.zeros(n),
+                    init_ver_velocity=np.zeros(n), init_hor_velocity=np.zeros(n), init_z_velocity=np.zeros(n))
+                ch.add_charge(particle_type="e", **arrs)
+                # the caller recycles its buffers: nothing of this may reach the container
+                arrs["particles_per_cluster"][...] = 977.0
+                arrs["init_ver_position"][...] = case["ph"] / 4
+                arrs["init_hor_position"][...] = case["pw"] / 4
+            elif k in ("read", "xr", "np"):
+                if k == "read":
+                    obj = ch.array
+                elif k == "xr":
+                    da = ch.to_xarray()
+                    keep.append(da)
+                    obj = da.values
+                else:
+                    obj = np.asarray(ch)
+                res.append((k, obj))
+                m = np.array(obj, dtype=float, copy=True)
+                if m.ndim != 2:
+                    rec = {"o": "raise", "cls": f"ndim{m.ndim}"}
+                else:
+                    rec = {"o": "arr", "m": _mat(m)}
+            elif k == "frame":
+                _ = ch.frame
+            elif k == "rmall":
+                ch.remove_from_frame()
+            elif k == "rm":
+                ch.remove_from_frame(list(o["ids"]))
+            elif k == "reset":
+                if case.get("reset_via") == "detector":
+                    det.empty()
+                else:
+                    ch.empty()
+            else:
+                raise RuntimeError(f"unknown op {k}")
+        except IndexError as ex:
+            rec = {"o": "corrupt", "cls": "IndexError", "msg": str(ex)[:120]}
+        except (ValueError, TypeError) as ex:
+            rec = {"o": "raise", "cls": type(ex).__name__, "msg": str(ex)[:120]}
+        try:
+            rec["f"] = _frame(ch)
+        except Exception as ex:  # noqa: BLE001
+            rec["f"] = []
+            rec["frame_error"] = type(ex).__name__
+        rec["args"] = [_mat(a) if a.ndim == 2 else [] for a in args]
+        rec["xr"] = [_mat(a) if a.ndim == 2 else [] for kk, a in res if kk == "xr"]
+        rec["dfs"] = [[[float(a), float(b), float(c)] for a, b, c in
+                       zip(df["number"].values, df["position_ver"].values, df["position_hor"].values)] for df in dfs]
+        trace.append(rec)
+        if rec["o"] == "corrupt":
+            break
+    return {"trace": trace, "crashed": False}
+
+
 def run_case(case, stop_on_corrupt=True):
     import numpy as np
     from harness.pyx import make_detector
+
+    if case.get("heap"):
+        return run_hcase(case)
 
     det = make_detector("ccd", rows=case["rows"], cols=case["cols"], pixel_vert_size=case["ph"],
                         pixel_horz_size=case["pw"])
